@@ -43,22 +43,44 @@ def _attr_code(obj, name):
     return c
 
 
-SETUP_KINDS = {'Tool._setup': 0, 'HandlerTool._setup': 1, 'ErrorTool._setup': 2, 'CachingTool._setup': 3,
-               'SessionTool._setup': 4}
-
-
-def setup_kind(tool):
-    """Which `_setup` the tool's class has (by the defining class found along the MRO)."""
-    for klass in type(tool).__mro__:
-        if '_setup' in vars(klass):
-            return SETUP_KINDS.get('%s._setup' % klass.__name__, 5)
-    return 5
-
-
 class _FakeRequest(object):
     def __init__(self, toolmaps):
         self.hooks = _cprequest.HookMap(_cprequest.hookpoints)
         self.toolmaps = toolmaps
+
+
+_UNSET = object()
+
+
+def setup_kind(tool, name):
+    """Which of the five modelled `_setup` behaviours the tool has, determined by *running* its `_setup` against a
+    bare request (robust against refactorings of the class hierarchy):
+    0 one hook whose callback is the tool's callable (Tool._setup); 1 one hook whose callback is something else (the
+    tool's wrapper) with the priority the callable / the tool declare (HandlerTool._setup); 3 the same with a priority
+    of its own (CachingTool._setup); 2 no hook, request.error_response replaced (ErrorTool._setup); 4 three or more
+    hooks, the tool's callable first (SessionTool._setup); 5 anything else."""
+    req = _FakeRequest({getattr(tool, 'namespace', 'tools'): {name: {'on': True}}})
+    req.error_response = _UNSET
+    serving = cherrypy.serving
+    old = serving.request
+    serving.request = req
+    try:
+        tool._setup()
+    finally:
+        serving.request = old
+    hooks = [(p, h) for p, pname in enumerate(POINTS) for h in req.hooks[pname]]
+    if not hooks:
+        return 2 if req.error_response is not _UNSET else 5
+    if len(hooks) == 1:
+        h = hooks[0][1]
+        if h.callback is tool.callable:
+            return 0
+        if h.priority == getattr(tool.callable, 'priority', tool._priority):
+            return 1
+        return 3
+    if len(hooks) >= 3 and any(h.callback is tool.callable for _, h in hooks):
+        return 4
+    return 5
 
 
 def probe_session_setup(locking):
@@ -88,9 +110,12 @@ def probe():
     h = _cprequest.Hook(lambda: None)
     t = _cptools.Tool('before_handler', lambda: None)
     tool, early = probe_session_setup('early')
-    lock = [hk for p, hk in early if getattr(hk.callback, '__func__', None) is _cptools.SessionTool._lock_session]
+    # the lock hook of the 'early' mode: the hook at before_request_body that is neither the tool's own callable
+    # nor one of the session module's functions
+    lock = [hk for p, hk in early if p == 1 and hk.callback is not tool.callable
+            and hk.callback not in (sessions.save, sessions.close)]
     if len(lock) != 1:
-        raise common.HarnessError('SessionTool._setup(locking=early) attached %d lock hooks' % len(lock))
+        raise RuntimeError('SessionTool._setup(locking=early) attached %d lock hooks at before_request_body' % len(lock))
     rows = []
     for name, tl in sorted(vars(cherrypy.tools).items()):
         if not isinstance(tl, _cptools.Tool):
@@ -100,7 +125,7 @@ def probe():
         if pr is None:
             raise common.HarnessError('default tool %s has priority %r' % (name, tl._priority))
         cb = tl.callable
-        rows.append((name, setup_kind(tl), point, pr, _attr_code(cb, 'priority'), _attr_code(cb, 'failsafe')))
+        rows.append((name, setup_kind(tl, name), point, pr, _attr_code(cb, 'priority'), _attr_code(cb, 'failsafe')))
     return {
         'namespaces': list(_cprequest.Request.namespaces),
         'hook_prio': val_code(h.priority), 'hook_fs': val_code(h.failsafe),
@@ -125,7 +150,7 @@ def tables():
   GENERATED by harness/c09_tables.py from the live modules under the repository on every run of the C09
   check - do not edit.  Every entry was obtained by executing / inspecting the real objects:
   `Request.namespaces`, `Hook(lambda: None)`, `Tool('before_handler', f)`, the real `SessionTool._setup`
-  run against a bare request, `vars(cherrypy.tools)`.
+  run against a bare request, `vars(cherrypy.tools)` (the `_setup` kind of a tool is found by running its `_setup`).
   Value codes `(tag, n)`: `(0, _)` None, `(1, b)` bool, `(2, i)` int, `(3, q)` float `q/4`.
 -/
 namespace CpModel.Gen.C09
